@@ -37,7 +37,7 @@ ASSUMPTIONS = [
     "sys.path and PYTHONHASHSEED.",
 ]
 MIN_NONTRIVIAL = {'quick': 1000, 'thorough': 30000}
-REQUIRED_MONITORS = ['battery', 'baseline', 'baseline:other-order', 'shadow-cache:compare',
+REQUIRED_MONITORS = ['battery', 'baseline', 'baseline:other-order', 'baseline:other-hashseed', 'shadow-cache:compare',
                      'shadow-cache:stored', 'fresh-object', 'state-audit',
                      'object-reuse']
 SHARD_TIMEOUT = {'quick': 600, 'thorough': 5400}
@@ -60,6 +60,9 @@ PROBE_PLSS = [
     ("T154N-R97W Sec 14 NE/4, Sec 15: W/2", "sec_colon_required"),
     ("T154N-R97W Sec 14: N/2 of Lot 1", "parse_qq"),
     ("T154N-R97W Sec 14: N/2 of Lot 1", "parse_qq,suppress_lot_divs"),
+    # several Twp/Rge's lacking directions (one warning names them all)
+    ("T154-R97 Sec 14: NE/4\nT155-R98 Sec 1: ALL\nT7N-R9 Sec 3: W/2\n"
+     "Township 12, Range 13 West Sec 5: Lot 1", ""),
 ]
 PROBE_TRACT = [
     ("Lots 1 - 3, N/2NE/4", ""), ("NE of Lot 2, NE", "clean_qq"),
@@ -86,6 +89,11 @@ def long_lived(pytrs):
         _LONG_LIVED['cfg'] = pytrs.Config('parse_qq')
         _LONG_LIVED['cfg_layout'] = pytrs.Config('copy_all')
         _LONG_LIVED['trs'] = pytrs.TRS('1n1w01')
+        # descriptions whose config states the directions outright
+        _LONG_LIVED['desc_nw'] = pytrs.PLSSDesc(
+            'T154-R97 Sec 14: NE/4', config='n,w')
+        _LONG_LIVED['desc_se'] = pytrs.PLSSDesc(
+            'T154-R97 Sec 14: NE/4', config='s,e')
     return _LONG_LIVED
 
 
@@ -146,6 +154,11 @@ def probes(pytrs):
     for s in PROBE_TRS:
         add(lambda s=s: trs(s))
 
+    # Tracts of long-lived descriptions keep the directions their parent's
+    # config states, whatever MasterConfig says by now.
+    add(lambda: [ll['desc_nw'].tracts[0].set_twprgesec(154, 97, 14),
+                 ll['desc_se'].tracts[0].set_twprgesec(154, 97, 14),
+                 ll['desc_nw'].tracts[0].trs, ll['desc_se'].tracts[0].trs])
     # One long-lived TRS object, re-assigned again and again.
     def reassign(s):
         o = ll['trs']
@@ -200,8 +213,9 @@ def battery(pytrs, order=None):
     return json.loads(json.dumps(out, default=str))
 
 
-def baseline(ns, ew, order=None):
-    """Battery outcome in a fresh interpreter with MasterConfig = (ns, ew)."""
+def baseline(ns, ew, order=None, hashseed=None):
+    """Battery outcome in a fresh interpreter with MasterConfig = (ns, ew)
+    (optionally under another string-hash seed than this worker's)."""
     code = (
         "import sys, json\n"
         "import pytrs\n"
@@ -209,8 +223,11 @@ def baseline(ns, ew, order=None):
         f"pytrs.MasterConfig.default_ns = {ns!r}\n"
         f"pytrs.MasterConfig.default_ew = {ew!r}\n"
         f"print(json.dumps(battery(pytrs, {order!r})))\n")
+    env = dict(os.environ)
+    if hashseed is not None:
+        env['PYTHONHASHSEED'] = str(hashseed)
     cp = subprocess.run([sys.executable, '-c', code], capture_output=True,
-                        text=True, timeout=120, env=dict(os.environ))
+                        text=True, timeout=120, env=env)
     if cp.returncode != 0:
         raise RuntimeError(f"baseline interpreter failed: {cp.stderr[-800:]}")
     return json.loads(cp.stdout)
@@ -537,6 +554,20 @@ def run_shard(shard, ctx):
     # Two fresh interpreters that run the probes in opposite orders must
     # agree probe by probe (otherwise a probe's answer depends on which
     # probes ran before it -- the baseline itself would hide that).
+    # ... and an interpreter started with another string-hash seed agrees
+    # too (the outcome is a function of text, config and MasterConfig).
+    seeded = baseline('n', 'w', None, hashseed=4242 + shard['i'])
+    ctx.hit('baseline:other-hashseed')
+    if seeded != base[('n', 'w')]:
+        i, x, y = first_diff(seeded, base[('n', 'w')])
+        ctx.violation(
+            'result-depends-on-history',
+            {'shard': shard, 'history': ['<fresh interpreter, PYTHONHASHSEED='
+                                         f"{4242 + shard['i']}>"]},
+            f"probe #{i} gives {short(repr(x), 220)} in a fresh interpreter "
+            f"started with another hash seed but {short(repr(y), 220)} here",
+            dedup=f"hashseed|{i}")
+        return
     for order in ['reverse'] + [1000 * shard['i'] + k for k in range(4)]:
         other = baseline('n', 'w', order)
         ctx.hit('baseline:other-order')
